@@ -31,8 +31,8 @@ Inductive cop : Type :=
 | OMatch (ps : list pat) | OGetSource | OPopSource | OGetChildren | OPopChildren | OPopSplit (s : str) | OIsFinish.
 
 Inductive cval : Type :=
-| VUnit | VBool (b : bool) | VTok (t : option tok) | VStr (s : option str)
-| VScanner (ts : list tok) | VScanners (l : list (list tok)).
+| CVUnit | CVBool (b : bool) | CVTok (t : option tok) | CVStr (s : option str)
+| CVScanner (ts : list tok) | CVScanners (l : list (list tok)).
 Inductive cout : Type := COk (v : cval) | CErr (e : err).
 
 Definition at_off (c : cursor) (k : nat) : option tok := nth_error (elems c) (pos c + k).
@@ -62,7 +62,7 @@ Definition test3 (c : cursor) (a b d : str) : bool :=
 
 Definition moved (c : cursor) (k : nat) : cursor := mkcur (elems c) (pos c + k).
 Definition and_move (c : cursor) (b : bool) (k : nat) : cursor * cout :=
-  if b then (moved c k, COk (VBool true)) else (c, COk (VBool false)).
+  if b then (moved c k, COk (CVBool true)) else (c, COk (CVBool false)).
 
 (* pop_as_children_scanner_list_split_by: split at leaves equal to `s`, dropping empty segments *)
 Fixpoint split_by (ts : list tok) (s : str) (cur : list tok) : list (list tok) :=
@@ -76,20 +76,20 @@ Fixpoint split_by (ts : list tok) (s : str) (cur : list tok) : list (list tok) :
 
 Definition step (c : cursor) (o : cop) : cursor * cout :=
   match o with
-  | OGetOffset k => (c, match at_off c k with Some t => COk (VTok (Some t)) | None => CErr ParseErr end)
-  | OGetOffsetOrNull k => (c, COk (VTok (at_off c k)))
-  | OGetOrNull => (c, COk (VTok (at_off c 0)))
-  | OPop => match at_off c 0 with Some t => (moved c 1, COk (VTok (Some t))) | None => (c, CErr ParseErr) end
-  | OMove k => (moved c k, COk VUnit)
-  | OClose => (c, if Nat.ltb (pos c) (len c) then CErr ParseErr else COk VUnit)
-  | OSearch ps => (c, COk (VBool (search c ps)))
-  | OSearchMark m => (c, COk (VBool (cur_test c (fun t => has_mark t m))))
-  | OSearchStr s => (c, COk (VBool (cur_test c (fun t => source_equal t s))))
-  | OSearchUpper s => (c, COk (VBool (cur_test c (fun t => source_equal_upper t s))))
-  | OSearchUpper2 a b => (c, COk (VBool (test2 c a b)))
-  | OSearchUpper3 a b d => (c, COk (VBool (test3 c a b d)))
-  | OSearchSet l => (c, COk (VBool (cur_test c (fun t => mem_str (source t) l))))
-  | OSearchSetUpper l => (c, COk (VBool (cur_test c (fun t => mem_str (upper (source t)) l))))
+  | OGetOffset k => (c, match at_off c k with Some t => COk (CVTok (Some t)) | None => CErr ParseErr end)
+  | OGetOffsetOrNull k => (c, COk (CVTok (at_off c k)))
+  | OGetOrNull => (c, COk (CVTok (at_off c 0)))
+  | OPop => match at_off c 0 with Some t => (moved c 1, COk (CVTok (Some t))) | None => (c, CErr ParseErr) end
+  | OMove k => (moved c k, COk CVUnit)
+  | OClose => (c, if Nat.ltb (pos c) (len c) then CErr ParseErr else COk CVUnit)
+  | OSearch ps => (c, COk (CVBool (search c ps)))
+  | OSearchMark m => (c, COk (CVBool (cur_test c (fun t => has_mark t m))))
+  | OSearchStr s => (c, COk (CVBool (cur_test c (fun t => source_equal t s))))
+  | OSearchUpper s => (c, COk (CVBool (cur_test c (fun t => source_equal_upper t s))))
+  | OSearchUpper2 a b => (c, COk (CVBool (test2 c a b)))
+  | OSearchUpper3 a b d => (c, COk (CVBool (test3 c a b d)))
+  | OSearchSet l => (c, COk (CVBool (cur_test c (fun t => mem_str (source t) l))))
+  | OSearchSetUpper l => (c, COk (CVBool (cur_test c (fun t => mem_str (upper (source t)) l))))
   | OSearchMove ps => and_move c (search c ps) (length ps)
   | OSearchMoveStr s => and_move c (cur_test c (fun t => source_equal t s)) 1
   | OSearchMoveUpper s => and_move c (cur_test c (fun t => source_equal_upper t s)) 1
@@ -97,16 +97,16 @@ Definition step (c : cursor) (o : cop) : cursor * cout :=
   | OSearchMoveUpper3 a b d => and_move c (test3 c a b d) 3
   | OSearchMoveSet l => and_move c (cur_test c (fun t => mem_str (source t) l)) 1
   | OSearchMoveSetUpper l => and_move c (cur_test c (fun t => mem_str (upper (source t)) l)) 1
-  | OMatch ps => if search c ps then (moved c (length ps), COk VUnit) else (c, CErr ParseErr)
-  | OGetSource => (c, COk (VStr (option_map source (at_off c 0))))
-  | OPopSource => match at_off c 0 with Some t => (moved c 1, COk (VStr (Some (source t)))) | None => (c, CErr ParseErr) end
-  | OGetChildren => (c, match at_off c 0 with Some t => COk (VScanner (tok_children t)) | None => CErr ParseErr end)
-  | OPopChildren => match at_off c 0 with Some t => (moved c 1, COk (VScanner (tok_children t))) | None => (c, CErr ParseErr) end
+  | OMatch ps => if search c ps then (moved c (length ps), COk CVUnit) else (c, CErr ParseErr)
+  | OGetSource => (c, COk (CVStr (option_map source (at_off c 0))))
+  | OPopSource => match at_off c 0 with Some t => (moved c 1, COk (CVStr (Some (source t)))) | None => (c, CErr ParseErr) end
+  | OGetChildren => (c, match at_off c 0 with Some t => COk (CVScanner (tok_children t)) | None => CErr ParseErr end)
+  | OPopChildren => match at_off c 0 with Some t => (moved c 1, COk (CVScanner (tok_children t))) | None => (c, CErr ParseErr) end
   | OPopSplit s => match at_off c 0 with
-                   | Some t => (moved c 1, COk (VScanners (split_by (tok_children t) s [])))
+                   | Some t => (moved c 1, COk (CVScanners (split_by (tok_children t) s [])))
                    | None => (c, CErr ParseErr)
                    end
-  | OIsFinish => (c, COk (VBool (Nat.leb (len c) (pos c))))
+  | OIsFinish => (c, COk (CVBool (Nat.leb (len c) (pos c))))
   end.
 
 (* a history of calls on one cursor: positions and outcomes after each call *)
